@@ -263,6 +263,11 @@ impl Universe {
 
     pub fn write_exec_sources(&self) {
         fs::create_dir_all(&self.exec_src).unwrap();
+        // "gone" is no file at all; "dangling" is a symbolic link to nowhere: missing just the same
+        let d = self.exec_src.join("dangling");
+        if fs::symlink_metadata(&d).is_err() {
+            let _ = std::os::unix::fs::symlink("no/such/program", &d);
+        }
         for (t, b) in &self.execs {
             let p = self.exec_src.join(t);
             if !p.exists() {
